@@ -28,7 +28,7 @@ var (
 	wdRuns    atomic.Int64
 )
 
-const wdRule = "C07x/analyzer-call-does-not-return"
+const wdRule = "C07/analyzer-call-does-not-return"
 
 func wdEnter(what string) {
 	wdWhat.Store(&what)
